@@ -322,7 +322,7 @@ func (r *runner) execFault(o op) {
 		for _, s := range c.col.ShardIds {
 			pts, err := c.shardSearch(s, sp.sr)
 			if err != nil {
-				r.emit(o.kind, o.line(), "setup-failed", false)
+				r.emit("skip", "skip setup-failed "+o.line(), "ok", false)
 				return
 			}
 			var hs []hit
@@ -334,9 +334,10 @@ func (r *runner) execFault(o op) {
 	}
 	if !c.arm(o.entry, o.server, o.script) {
 		c.heal()
-		r.emit(o.kind, o.line(), "setup-failed", false)
+		r.emit("skip", "skip setup-failed "+o.line(), "ok", false)
 		return
 	}
+	j := startJitter()
 	var fp []cluster.FailedPoint
 	var res []models.SearchResult
 	var err error
@@ -355,6 +356,14 @@ func (r *runner) execFault(o op) {
 			res, err = c.nodes[o.entry].SearchPoints(c.col, sp.sr)
 		}
 	})
+	// RpcTimeout is one second for the healthy servers too: if the process was starved while the op ran
+	// (a 20 ms ticker overslept by more than 300 ms) a healthy server's answer may have come too late
+	// for the caller although its handler completed — such a run is not judged (the model still
+	// follows the state through the measured `ans` bits)
+	starved := j.end() > 300*time.Millisecond
+	if starved {
+		time.Sleep(500 * time.Millisecond) // let a handler that is still running finish before `ans` is read
+	}
 	if o.kind == "update" {
 		for _, p := range o.pts {
 			req = append(req, int(p[0]))
@@ -382,6 +391,14 @@ func (r *runner) execFault(o op) {
 	line := o.line() + " ans=" + strings.Join(bits, ",")
 	if len(bits) == 0 {
 		line = o.line() + " ans=-"
+	}
+	if starved && returned {
+		line += " inconclusive=1"
+		if o.kind == "search" {
+			line += " mode=- opts=- answers=-"
+		}
+		r.emit("inconclusive", line, "inconclusive", false)
+		return
 	}
 	if !returned {
 		r.emit(o.kind, line, "no-return", false)
@@ -542,7 +559,7 @@ func (r *runner) execRoute(o op) {
 		c.heal()
 		if !c.arm(o.entry, o.server, o.script) {
 			c.heal()
-			r.emit("route", line, "setup-failed", false)
+			r.emit("skip", "skip setup-failed "+line, "ok", false)
 			return
 		}
 		fn := c.fnets[o.server]
@@ -774,7 +791,7 @@ func runFaultScenarios(out *vh.Out, scs [][]op) map[string]int {
 	for _, j := range jobs {
 		for _, e := range j.r.buf {
 			out.Emit(e.kind, e.line, e.impl, e.nontrivial)
-			if e.impl == "setup-failed" {
+			if strings.HasPrefix(e.line, "skip setup-failed") {
 				out.Stats["fault-setup-failed"]++
 			}
 			if f := strings.Index(e.line, " fault="); f >= 0 {
